@@ -17,6 +17,8 @@ type Ctx struct {
 	P    *eng.Prog
 	R    *rep.Report
 	Tier string
+	// errLenient: see errFate (set while the HTTP handlers' error handling is examined)
+	errLenient bool
 }
 
 // Registry maps property ids to their checks.
